@@ -408,6 +408,14 @@ func c04(w *core.World, r *core.Report) {
 		checkOrder(w, r, "MERGED-BEFORE-VALIDATE", rep, F, V, "FinishInsertionPhase before Validate (replace)")
 	}
 
+	// ---- VERDICT-GATE
+	r.Rule("VERDICT-GATE", 2, "the accept / reject decision is the verdict of the validation of the resulting configuration: in lowlevelTransactionSet and replaceIntent the device is written only on the false outcome of HasErrors() of the very value RootEntry.Validate returned (shared machinery with C03.VALIDATION-GUARD).")
+	ruleVerdictGate(w, r, "VERDICT-GATE")
+
+	// ---- LEAFREF-PATH-FRESH (shared with C17)
+	r.Rule("LEAFREF-PATH-FRESH", 1, "the parsed leafref path that resolution rewrites in place (resolved key predicates) belongs to one resolution: the result of tree.newLrefPath flows into no struct field other than those of the path's own elements (value flow, field-based, whole repository).")
+	ruleLeafrefPathFresh(w, r, "LEAFREF-PATH-FRESH")
+
 	// ---- NO-GLOBAL-STATE
 	r.Rule("NO-GLOBAL-STATE", 1, "the validators (everything reachable from sharedEntryAttributes.Validate) use no package-level variable of the repository other than the frozen read-only ones: the verdict for one entry must not depend on what was validated before (another list entry, another transaction) through a process-wide cache or a shared parsed object.")
 	ruleNoGlobalState(w, r, "NO-GLOBAL-STATE", validate)
